@@ -355,6 +355,47 @@ func TestC14(t *testing.T) {
 			}
 		}
 	})
+	// Truncate and the text round trip around every power of ten up to 10^420
+	// (digit counting on long coefficients), and the text round trip at the ends
+	// of the exponent range
+	EnumerateSharded(t, p, "powers-of-ten", func(shard, nshards int, yield func(C14Case) bool) {
+		idx := 0
+		for k := int64(0); k <= 420; k++ {
+			for _, d := range []int64{-1, 0, 1} {
+				cf := new(big.Int).Add(pow10(k), big.NewInt(d))
+				if cf.Sign() == 0 {
+					continue
+				}
+				for _, sign := range []int64{1, -1} {
+					idx++
+					if idx%nshards != shard {
+						continue
+					}
+					v := new(big.Int).Mul(cf, big.NewInt(sign))
+					digits := digitsOf(v)
+					for _, n := range []int{digits - 1, digits, digits + 1} {
+						if n >= 1 && !yield(C14Case{Op: "trunc", A: DecJ{v.String(), -k, false}, B: DecJ{"0", 0, false}, N: n}) {
+							return
+						}
+					}
+					if !yield(C14Case{Op: "text", A: DecJ{v.String(), -k / 2, false}, B: DecJ{"0", 0, false}}) {
+						return
+					}
+				}
+			}
+		}
+		for _, cf := range []string{"5", "-5", "12", "12345", "-1200", "0", "99999999999999999999"} {
+			for _, e := range []int64{math.MinInt32, math.MinInt32 + 1, math.MinInt32 + 2, math.MinInt32 + 5, math.MaxInt32 - 5, math.MaxInt32 - 1, math.MaxInt32} {
+				idx++
+				if idx%nshards != shard {
+					continue
+				}
+				if !yield(C14Case{Op: "text", A: DecJ{cf, e, false}, B: DecJ{"0", 0, false}}) {
+					return
+				}
+			}
+		}
+	})
 	// exhaustive small grid for binary operations
 	Enumerate(t, p, "binop-grid", func(yield func(C14Case) bool) {
 		vals := []int64{0, 1, -1, 9, 10, -10, 99, 100, 101, -999, 12345}
